@@ -273,7 +273,19 @@ func (p *Path) opaqueEnc(first *Term, msg Iface) Value {
 	p.assumeQuiet(ts.And(ts.BVCmp("bvsge", l, ts.BV(64, 1)), ts.BVCmp("bvsle", l, ts.BV(64, 1<<24))))
 	p.ghost["lastEncLen"] = l
 	p.logs["encLens"] = append(p.logs["encLens"], l)
-	return &OpaqueBytes{length: l, tok: len(p.tokens)}
+	ob := &OpaqueBytes{length: l, tok: -1}
+	if msg.T != nil {
+		// keep the encoded value so that a harness can "decode" the opaque buffer again
+		typ, val := msg.T, msg.V
+		if pt, ok := typ.Underlying().(*types.Pointer); ok {
+			if ptr := val.(Ptr); ptr != nil {
+				typ, val = pt.Elem(), *ptr
+			}
+		}
+		ob.tok = len(p.tokens)
+		p.tokens = append(p.tokens, tokenRec{typ: typ, val: deepCopy(val, map[Ptr]Ptr{})})
+	}
+	return ob
 }
 
 func init() {
@@ -441,5 +453,23 @@ func init() {
 	}
 	intrinsics["vfStubCalls"] = func(p *Path, fr *frame, a []Value) Value {
 		return p.e.ts.BV(64, uint64(len(p.logs["ml."+concStr(a[0])])))
+	}
+}
+
+// vfDecodeOpaque(buf, &out): identity decoding of an opaque encoded buffer (engine only).
+func init() {
+	intrinsics["vfDecodeOpaque"] = func(p *Path, fr *frame, a []Value) Value {
+		ob, ok := a[0].(*OpaqueBytes)
+		out := a[1].(Iface)
+		if !ok || ob.tok < 0 || ob.tok >= len(p.tokens) {
+			return p.e.ts.False
+		}
+		tok := p.tokens[ob.tok]
+		pt, isPtr := out.T.Underlying().(*types.Pointer)
+		if !isPtr || !types.Identical(pt.Elem(), tok.typ) {
+			return p.e.ts.False
+		}
+		*out.V.(Ptr) = deepCopy(tok.val, map[Ptr]Ptr{})
+		return p.e.ts.True
 	}
 }
